@@ -14,6 +14,7 @@ import (
 	"github.com/veesix-networks/osvbng/pkg/dhcp4"
 	"github.com/veesix-networks/osvbng/pkg/dhcp6"
 	"github.com/veesix-networks/osvbng/pkg/events"
+	"github.com/veesix-networks/osvbng/pkg/logger"
 	"github.com/veesix-networks/osvbng/pkg/svcgroup"
 )
 
@@ -309,4 +310,31 @@ func (c *Component) setupSessionUnnumbered(sessID string, swIfIndex uint32, loop
 			c.logger.Error("Failed to set unnumbered on IPoE session", "session_id", sessID, "sw_if_index", swIfIndex, "loopback", loopback, "error", err)
 		}
 	})
+}
+
+// handleResolvedV4 hands a DHCPv4 packet to the provider unless osvbng itself is
+// the address authority for the profile (server mode) and the address resolution
+// failed (pool exhausted, reservation conflict, unknown profile). Without a
+// resolved address the local provider would answer from its own lease table - an
+// address the allocator registry does not hold for this session and may hand to
+// somebody else. The client retries; it gets an answer once an address can be
+// resolved.
+func (c *Component) handleResolvedV4(p dhcp4.DHCPProvider, pkt *dhcp4.Packet) (*dhcp4.Packet, error) {
+	if pkt.Resolved == nil && (pkt.Profile == nil || pkt.Profile.GetMode() == "server") {
+		c.logger.WithGroup(logger.IPoEDHCP4).Warn("No address resolved, not answering",
+			"session_id", pkt.SessionID, "mac", pkt.MAC)
+		return nil, nil
+	}
+	return p.HandlePacket(c.Ctx, pkt)
+}
+
+// handleResolvedV6 is the DHCPv6 counterpart: without a resolved binding the local
+// provider would allocate from its own pool view, outside the allocator registry.
+func (c *Component) handleResolvedV6(p dhcp6.DHCPProvider, pkt *dhcp6.Packet) (*dhcp6.Packet, error) {
+	if pkt.Resolved == nil && (pkt.Profile == nil || pkt.Profile.GetMode() == "server") {
+		c.logger.WithGroup(logger.IPoEDHCP6).Warn("No address or prefix resolved, not answering",
+			"session_id", pkt.SessionID, "mac", pkt.MAC)
+		return nil, nil
+	}
+	return p.HandlePacket(c.Ctx, pkt)
 }
